@@ -5,7 +5,7 @@
 import glob, json, os, re, shutil, subprocess, sys
 
 SEEDED = "/verif/seeded"
-EXTRA = {"C06-1": ["C05"], "C03-1": ["C04"], "C05-1": ["C06"], "C02-4": ["C04"], "C04-4": ["C07"], "C06-3": ["C05"], "C06-4": ["C05"]}  # other properties' checks that are also expected to notice
+EXTRA = {"C06-1": ["C05"], "C03-1": ["C04"], "C05-1": ["C06"], "C02-4": ["C04"], "C04-4": ["C07"], "C06-3": ["C05"], "C06-4": ["C05"], "C01-5": ["C03", "C04"], "C11-4": ["C12"]}  # other properties' checks that are also expected to notice
 
 
 def collect():
@@ -77,17 +77,40 @@ def detect(tier):
     subprocess.run(["./setup.sh"], cwd="/verif", capture_output=True)
 
 
-def table():
-    print("| seeded change | what it breaks | needs | caught by (quick tier) |")
-    print("|---|---|---|---|")
+def table(compact=False):
+    print("| seeded change | what it breaks | needs | caught by (quick tier) |" if not compact else "| id | what it breaks (first words of the agent's summary) | caught by (quick tier): violation keys |")
+    print("|---|---|---|---|" if not compact else "|---|---|---|")
     for d in sorted(glob.glob(f"{SEEDED}/C*-*")):
         m = json.load(open(f"{d}/meta.json"))
         det = m.get("detection", {}).get("checks", {})
-        cell = "; ".join(f"{c}: " + ("exit 1, " + ", ".join(dict.fromkeys(v["violation_keys"][:2])) if v["exit"] else "MISSED") for c, v in det.items()) or "not run"
+        cell = "; ".join(f"{c}: " + (", ".join(dict.fromkeys(k[:60] for k in v["violation_keys"][:2])) if v["exit"] else "not by this check") for c, v in det.items()) or "not run"
         s = (m.get("summary") or "").replace("|", "/").replace("\n", " ")
         n = (m.get("needs_to_manifest") or "").replace("|", "/").replace("\n", " ")
-        print(f"| {os.path.basename(d)} | {s[:160]} | {n[:140]} | {cell} |")
+        if compact:
+            print(f"| {os.path.basename(d)} | {s[:120]} | {cell} |")
+        else:
+            print(f"| {os.path.basename(d)} | {s[:400]} | {n[:300]} | {cell} |")
+
+
+def design():
+    """writes seeded/SUMMARY.md (full) and replaces the compact table between the markers of DESIGN.md"""
+    import io, contextlib
+    buf = io.StringIO()
+    with contextlib.redirect_stdout(buf):
+        table(False)
+    open(f"{SEEDED}/SUMMARY.md", "w").write("# Seeded property-breaking changes and the checks that catch them\n\n"
+        "Produced by `python3 tools_seeded.py detect quick` (apply to /repo, run the property's check, undo) and `tools_seeded.py design`.\n\n" + buf.getvalue())
+    buf = io.StringIO()
+    with contextlib.redirect_stdout(buf):
+        table(True)
+    p = "/verif/DESIGN.md"
+    t = open(p).read()
+    a, b = t.index("<!-- SEEDED_TABLE_BEGIN -->"), t.index("<!-- SEEDED_TABLE_END -->")
+    n = len(glob.glob(f"{SEEDED}/C*-*"))
+    t = t[:a] + "<!-- SEEDED_TABLE_BEGIN -->\n" + f"{n} changes (full text, triggers and confirmation records: `seeded/SUMMARY.md`, `seeded/<id>/meta.json`):\n\n" + buf.getvalue() + t[b:]
+    open(p, "w").write(t)
+    print("written", n)
 
 
 if __name__ == "__main__":
-    {"collect": collect, "detect": lambda: detect(sys.argv[2]), "table": table}[sys.argv[1]]()
+    {"collect": collect, "detect": lambda: detect(sys.argv[2]), "table": table, "design": design}[sys.argv[1]]()
